@@ -307,7 +307,7 @@ fn c08_expiry() {
         fx.f.on_going_fetches.insert((key(i as u8), ty[0].clone()), (h, Instant(d)));
         og.push((key(i as u8), h, d));
     }
-    let n_pend = 1 + choice(2);
+    let n_pend = choice(3);
     let mut pend = vec![];
     for j in 0..n_pend {
         let h = peer(1 + choice(3) as u8);
